@@ -197,15 +197,13 @@ def nulfree_rule(chk, db, record, floor):
             if sink == length_q:
                 if cstr:
                     continue
-                # reaching length() through an overload that itself takes a null-terminated string is that overload's business
-                inner = [x for x in pth[1:-1]]
-                if any(_sig_takes_c_string(db, x) for x in inner):
-                    continue
+                # a counted entry that delegates to an overload for null-terminated strings measures counted data with length():
+                # characters after an embedded null are lost
                 bad.append(pth)
             else:
                 # the C routine below traits_type::length is length's implementation
                 if len(pth) >= 2 and pth[-2].startswith(length_q + "("):
-                    if cstr or any(_sig_takes_c_string(db, x) for x in pth[1:-2]):
+                    if cstr:
                         continue
                 bad.append(pth)
         chk.obligation("NULFREE", construct, not bad, evaluations=max(1, len(paths)))
